@@ -977,6 +977,11 @@ func rootOf(v ssa.Value) ssa.Value {
 			if x.Op != token.MUL {
 				return v
 			}
+			// a captured variable assigned exactly once (a parameter a function literal uses) stands for that value
+			if sv := finalCellValue(x); sv != nil {
+				v = sv
+				continue
+			}
 			v = x.X
 		case *ssa.FieldAddr:
 			v = x.X
